@@ -6,6 +6,7 @@
 // named by VERIF_CONV_LOG: "<name> <streamID> <sha256 of the input chunks>".
 // A stream with "x5" somewhere in its payload is answered with one line that is
 // no chunk (a converter with a stray debug print): the service gives up on it.
+// A stream with "x7" in its payload makes the converter exit as soon as it reads that chunk.
 package main
 
 import (
@@ -62,6 +63,10 @@ func main() {
 				os.Exit(1)
 			}
 			raw, _ := base64.StdEncoding.DecodeString(c.Content)
+			// a stream whose payload holds "x7" kills the converter on the spot, while the service may still be sending
+			if bytes.Contains(raw, []byte("x7")) && os.Getenv("VERIF_CONV_NOFAIL") == "" {
+				os.Exit(3)
+			}
 			fmt.Fprintf(h, "%s %d ", c.Direction, len(raw))
 			h.Write(raw)
 			o := chunk{Direction: c.Direction, Time: c.Time, Content: base64.StdEncoding.EncodeToString([]byte(name + ":" + strings.ToUpper(string(raw))))}
